@@ -34,6 +34,7 @@ type Batch struct {
 	Race     bool           `json:"race,omitempty"`      // run on the -race binary
 	TimeoutS int            `json:"timeout_s,omitempty"` // watchdog (generous); firing = inconclusive unless a dump shows blocked reservoir frames
 	Env      []string       `json:"env,omitempty"`
+	Wrap     []string       `json:"wrap,omitempty"`      // run the child under this command (e.g. strace as a delay injector)
 	OnlyCase string         `json:"only_case,omitempty"` // replay filter
 }
 
